@@ -65,6 +65,17 @@ NEEDS = {
     "seed_C18d": ("C18", "a v1 YAML file using an anchor/alias for two output variables with ncformat != f4 (shared dict popped in place, new default f4)", ""),
     "seed_C19d": ("C19", "an output plug-in without a layout attribute + a particle killed by the IBM (compactify only when layout == 'sparse')", ""),
     "seed_C20d": ("C20", "a subgrid edge beyond the grid by more than i0 (negative-index handling by modulo wraps illegal limits into range before the sanity check)", ""),
+    "seed_C03e": ("C03", "reversed run + irregular (non-palindromic) forcing frame spacing + time-varying flow (stepdiff taken from the unsorted, descending step list: dU uses the mirror interval's length)", ""),
+    "seed_C06e": ("C06", "skip_initial true (explicitly, or implicitly on every warm start): the time coordinate comes from the output module's own counter that starts at step 0, every record labelled one period early", ""),
+    "seed_C07e": ("C07", "split run (at least two files) with a variable whose configured type is not f4 (create_netcdf pops 'datatype' from the shared configuration: later files are all f4)",
+                  "caught by the bounded whole-run check; deductively the postcondition of create_netcdf crashed on the consumed configuration (UNDECIDED): it is now stated on the configuration as given, with the frame obligation 'the configuration keeps every entry it had' (deductive detection)"),
+    "seed_C08e": ("C08", "output without particle variables + newest pid absent from the last record of the restart file (npid taken from the last record only: pids reused after the restart)", ""),
+    "seed_C10e": ("C10", "the slip of seed_C03e seen from C10: a reversed run with irregular frames differs from the mirrored forward run", "bounded detection by C10's own check (the deductive unit Forcing.__init__ is UNDECIDED on the changed iteration); C03's check refutes the constructor's postcondition deductively"),
+    "seed_C14e": ("C14", "an inactive particle still in the state (dense layout after a death, or an IBM deactivating) followed by active ones at other depths in depth-dependent flow (advection called on the active subset: the forcing reads the cached K, A of other particles)",
+                  "MISSED by the first run: the unit was UNDECIDED (compressed array combined with a full array) and no bounded scenario had an inactive particle in front of active ones at other depths. Two general changes: obligations met BEFORE an unsupported construct are now decided (the unit stays UNDECIDED), and the scheme contracts state the alignment precondition of forcing.velocity (positions index-aligned with the cached K, A), which this call violates (deductive detection)"),
+    "seed_C16e": ("C16", "sample2D with a mask + outside_value + a point outside + a masked node in cell (0,0)", ""),
+    "seed_C18e": ("C18", "legacy v1 file naming the forcing file and the grid file in different sections (gridforce vs files): the explicit grid file is dropped",
+                  "MISSED by the first run: the v1 units placed both names in the same section. The placements are now independent (37 units instead of 19): deductive detection"),
 }
 
 
@@ -91,7 +102,7 @@ def main():
             breaks_property=pid,
             origin="independent sub-agent, later round: given only the property text, a scratch worktree and the instruction to avoid the site used by the first-round seed and to prefer cooperating edits / histories / boundary values (no access to /verif)",
             needs_to_manifest=needs,
-            confirmed=dict(demo_exit_with_patch=v["demo_exit_with_patch"], demo_exit_without_patch=v["demo_exit_without_patch"], tests_with_patch=v["tests_with"], tests_without_patch=v["tests_without"]),
+            confirmed={k: v[k] for k in ("demo_exit_with_patch", "demo_exit_without_patch", "tests_with", "tests_without", "demo_says_violated_with_patch", "demo_says_holds_without_patch") if k in v},
             what_i_ran=["tools/verify_seed.sh: git apply patch.diff in a scratch worktree; demo with and without; pytest with and without",
                         "PYVC_REPO=<patched worktree> python3-vt -m pyvc.check <id> --tier quick (same verdict as applying patch.diff to /repo and running the registered command)"],
             check_exit_codes=exits,
